@@ -100,6 +100,7 @@ fn open_copy(src: &std::path::Path, kind: Kind, hook: &Arc<FaultHook>) -> anyhow
 /// path legitimately commits the client record before the version.
 fn normalized(rows: &[String]) -> Vec<String> {
     rows.iter()
+        .filter(|r| !(r.starts_with("proto-client") && (r.contains("exists=false") || (r.contains("latest=Some(00000000-0000-0000-0000-000000000000)") && r.contains("snapshot=None")))))
         .filter(|r| !(r.starts_with("clients:") && r.contains("latest_version_id=t'00000000-0000-0000-0000-000000000000'") && r.contains("snapshot_version_id=NULL")))
         .cloned()
         .collect()
@@ -148,6 +149,17 @@ fn mask(rows: &[String], known: &std::collections::HashSet<String>) -> Vec<Strin
                 s.push(ch);
                 i += ch.len_utf8();
             }
+            // (protocol rows carry the time as the second tuple field of snapshot=Some((id, time, since)))
+            if s.starts_with("proto-client") {
+                if let Some(i) = s.find("snapshot=Some((") {
+                    if let Some(c1) = s[i..].find(", ") {
+                        let start = i + c1 + 2;
+                        if let Some(c2) = s[start..].find(", ") {
+                            s.replace_range(start..start + c2, "<time>");
+                        }
+                    }
+                }
+            }
             // the snapshot time is stamped by each execution itself
             if let Some(i) = s.find("snapshot_timestamp=i") {
                 let start = i + "snapshot_timestamp=i".len();
@@ -161,8 +173,14 @@ fn mask(rows: &[String], known: &std::collections::HashSet<String>) -> Vec<Strin
     out
 }
 
-fn state(s: &Subject) -> Vec<String> {
-    dump_sql(&s.db_path().unwrap()).unwrap_or_else(|e| vec![format!("DUMP ERROR {e:#}")])
+fn state_with(s: &Subject, clients: &[Uuid], ids: &[Uuid]) -> Vec<String> {
+    let mut rows = dump_sql(&s.db_path().unwrap()).unwrap_or_else(|e| vec![format!("DUMP ERROR {e:#}")]);
+    // protocol-visible state through the storage API (covers data kept outside the main database
+    // file); read through a fresh, un-hooked storage object on the same directory
+    if let Ok(st) = taskchampion_sync_server_storage_sqlite::SqliteStorage::new(s.dir.as_ref().unwrap().path()) {
+        rows.extend(crate::checks_c04::proto_rows(&st, clients, ids));
+    }
+    rows
 }
 
 pub fn shard_run(tier: &str, seed: u64, replay_case: Option<usize>, shard: Shard) -> ShardOut {
@@ -255,7 +273,8 @@ pub fn shard_run(tier: &str, seed: u64, replay_case: Option<usize>, shard: Shard
                     out.errors.push(format!("copy: {e}"));
                     break;
                 }
-                let pre = state(&main);
+                let idlist: Vec<Uuid> = chains.iter().flatten().flat_map(|p| [p.0, p.1]).collect();
+                let pre = state_with(&main, &runner_clients, &idlist);
                 let mut known_ids = uuids_in(&pre);
                 known_ids.insert(cid.to_string());
                 match &req {
@@ -280,7 +299,7 @@ pub fn shard_run(tier: &str, seed: u64, replay_case: Option<usize>, shard: Shard
                     hook.reset(-1, false);
                     let r = s.exec(cid, &req);
                     let calls = hook.log.lock().unwrap().clone();
-                    (calls, state(&s), r)
+                    (calls, state_with(&s, &runner_clients, &idlist), r)
                 };
                 // now the real step on main
                 let resp = main.exec(cid, &req);
@@ -316,6 +335,12 @@ pub fn shard_run(tier: &str, seed: u64, replay_case: Option<usize>, shard: Shard
                                 continue;
                             }
                         };
+                        // warm the server up first (a server that has already answered requests for this
+                        // client may hold derived state that the failing request must not leave stale)
+                        hook.reset(-1, false);
+                        let l0 = chains[c].last().map(|p| p.0).unwrap_or(Uuid::nil());
+                        let _ = s.exec(cid, &Req::GetChild { parent: l0 });
+                        let _ = s.exec(cid, &Req::GetSnapshot);
                         hook.reset(ci as i64, mode == Mode::After);
                         let r = s.exec(cid, &req);
                         let fired = hook.fired.load(Ordering::SeqCst);
@@ -328,7 +353,7 @@ pub fn shard_run(tier: &str, seed: u64, replay_case: Option<usize>, shard: Shard
                             cov.count("fault_sites_not_reached", 1);
                             continue;
                         }
-                        let after_state = state(&s);
+                        let after_state = state_with(&s, &runner_clients, &idlist);
                         let ctx = format!("[{}] {} (request #{oi} of history {hi}) with storage call #{ci} {:?} failing {}", kind.name(), req.name(), ev.call, if mode == Mode::Before { "before taking effect" } else { "after taking effect" });
                         let rep = json!({"origin": "c05", "case": case, "history_seed": h.seed, "request_index": oi, "call_index": ci, "call": format!("{:?}", ev.call), "mode": format!("{mode:?}"), "calls": calls.iter().map(|e| format!("{:?}", e.call)).collect::<Vec<_>>()});
                         cov.hit(format!("{}|{}|{:?}|{:?}|{}", kind.name(), req.name(), ev.call, mode, r.outcome()));
@@ -356,9 +381,39 @@ pub fn shard_run(tier: &str, seed: u64, replay_case: Option<usize>, shard: Shard
                             bad = Some(format!("{ctx}: {begins} transactions were begun but {drops} released when the request returned (leaked transaction)"));
                         }
                         if bad.is_none() {
+                            let latest = chains[c].last().map(|p| p.0).unwrap_or(Uuid::nil());
+                            if bad.is_none() {
+                                // "later requests are served normally": the server that saw the fault must
+                                // answer like a fresh server over the same stored state
+                                let fresh_dir = ScratchDir::new("c05fresh");
+                                let _ = copy_dir(s.dir.as_ref().unwrap().path(), fresh_dir.path());
+                                if let Ok(mut fresh) = Subject::open_dir(kind, Config { snapshot_days: 14, snapshot_versions: 4 }, fresh_dir) {
+                                    // the reads most likely to be answered from derived state come first
+                                    // (any other request might refresh it)
+                                    let mut probes: Vec<Req> = vec![];
+                                    if let Req::AddVersion { parent, .. } | Req::GetChild { parent } = &req {
+                                        probes.push(Req::GetChild { parent: *parent });
+                                    }
+                                    probes.push(Req::GetChild { parent: latest });
+                                    probes.push(Req::GetSnapshot);
+                                    for (v, p) in chains[c].iter().rev().take(2) {
+                                        probes.push(Req::GetChild { parent: *v });
+                                        probes.push(Req::GetChild { parent: *p });
+                                    }
+                                    probes.push(Req::GetChild { parent: Uuid::nil() });
+                                    for pr in probes {
+                                        let a = s.exec(cid, &pr);
+                                        let b = fresh.exec(cid, &pr);
+                                        cov.count("differential_follow_up_probes", 1);
+                                        if a != b {
+                                            bad = Some(format!("{ctx}: afterwards {} on the server that saw the failure answers {} but a fresh server over the same stored state answers {}", pr.name(), a.short(), b.short()));
+                                            break;
+                                        }
+                                    }
+                                }
+                            }
                             // later requests are served normally
                             let p1 = s.exec(cid, &Req::GetChild { parent: Uuid::nil() });
-                            let latest = chains[c].last().map(|p| p.0).unwrap_or(Uuid::nil());
                             let p2 = s.exec(cid, &Req::AddVersion { parent: latest, data: b"probe".to_vec() });
                             cov.count("follow_up_probes", 2);
                             for p in [&p1, &p2] {
@@ -436,7 +491,7 @@ pub fn shard_run(tier: &str, seed: u64, replay_case: Option<usize>, shard: Shard
                                     cov.count("vfs_fault_sites_not_reached", 1);
                                     continue;
                                 }
-                                let after_state = state(&s);
+                                let after_state = state_with(&s, &runner_clients, &idlist);
                                 let eq_pre = normalized(&after_state) == normalized(&pre);
                                 let eq_post = mask(&normalized(&after_state), &known_ids) == mask(&normalized(&post), &known_ids);
                                 let success = !matches!(r, Resp::Error(_));
